@@ -1,13 +1,15 @@
 // Stub backend for the real (type-stripped) ProcGenWrapper / RangeListManager / template instance.
 //
 // It replaces glass-easel's element.ts / shadow_root.ts / component.ts / func_arr.ts / warning.ts.
-// Every tag is a native node (there are no components), nothing is rendered anywhere: the classes
-// only keep the shadow tree (childNodes / parentNode / parentIndex, maintained exactly like
+// Tags named `cmp-…` are stub components (COMPONENT_DEFS: declared properties, external classes, and for
+// `cmp-dyn` an inner shadow root in dynamic-slot mode with fixed slot instances); every other tag is a
+// native node. Nothing is rendered anywhere: the classes only keep the shadow tree (childNodes / parentNode / parentIndex, maintained exactly like
 // Element.insertChildSingleOperation / insertChildBatchInsertion / insertChildBatchRemoval do) and
 // record what the template runtime sets on each node.
 //
 // Any member the runtime reads or writes that is not defined here throws
 // `stub backend: missing member "<name>" on <Class>` (see TRAP) instead of being ignored.
+import { readFileSync } from 'node:fs'
 import {
   COMPONENT_SYMBOL,
   ELEMENT_SYMBOL,
@@ -94,6 +96,7 @@ class Node {
   log = [] // per-step log of setter calls / effects, cleared by the runner between steps
   destroyOnRemoval = false
   slotElement = null
+  _$inheritSlots = false
   // private state kept on nodes by proc_gen_wrapper.ts (getTmplArgs / getTmplDevArgs)
   _$wxTmplArgs = undefined
   _$wxTmplDevArgs = undefined
@@ -143,7 +146,6 @@ export class Element extends Node {
   childNodes = []
   is = ''
   _$virtual = false
-  _$inheritSlots = false
   _$slotName = null
   _$slotValues = null
   slotNodes = undefined
@@ -388,20 +390,7 @@ export class NativeNode extends Element {
 
   setModelBindingListener(propName, listener) {
     this.modelListeners.set(propName, listener)
-    // Probe the real closure once to learn which data path it writes to:
-    // it calls Component.getDataProxy(host).replaceDataOnPath(path, value); applyDataUpdates(false)
-    const host = this.ownerShadowRoot.getHostNode()
-    host.modelWrites = []
-    try {
-      listener.call(this, MODEL_PROBE)
-      const w = host.modelWrites
-      // a listener that writes nothing is how the wrapper clears a binding (path became null): same as none
-      if (w.length === 0) this.modelPaths.delete(propName)
-      else this.modelPaths.set(propName, w.length === 1 && w[0][1] === MODEL_PROBE ? w[0][0] : { unexpectedWrites: w.map((x) => x[0]) })
-    } catch (e) {
-      this.modelPaths.set(propName, { probeError: errMsg(e) })
-    }
-    host.modelWrites = null
+    probeModelListener(this, propName, listener)
   }
 }
 mark(NativeNode, NATIVE_NODE_SYMBOL)
@@ -414,6 +403,214 @@ export class VirtualNode extends Element {
   }
 }
 mark(VirtualNode, VIRTUAL_NODE_SYMBOL)
+
+// ---- stub components -----------------------------------------------------------------------------------
+// What the template runtime can observe of a component: which properties it declares (DataProxy#replaceProperty
+// answers false for the others), its external classes, the change queue (hasPendingChanges / applyDataUpdates),
+// and its shadow root's slot mode. `slots` lists the slot instances of a dynamic-slot component's shadow tree.
+// (shared with the reference renderer: checklib/tmplgen.py reads the same file)
+export const COMPONENT_DEFS = JSON.parse(readFileSync(new URL('./components.json', import.meta.url), 'utf8'))
+const DEFAULT_DEF = { props: [], externalClasses: [], slots: null }
+export const SLOT_VALUE_NAMES = ['a', 'b', 'sv', 'item', 'xY']
+// the value of slot value `name` of slot instance `j` at "epoch" k (a pure function of k: bit i of k flips name i)
+export const slotValueAt = (j, name, k) => {
+  const i = SLOT_VALUE_NAMES.indexOf(name)
+  return `SV${j}:${name}${i >= 0 && (k >> i) & 1 ? '#' : ''}`
+}
+let slotEpoch = 0
+export const setSlotEpoch = (k) => {
+  slotEpoch = k
+}
+
+// a slot element inside a stub component's shadow tree (only what the runtime reads of it)
+class InnerSlot extends Node {
+  _$slotName = ''
+  _$slotValues = null
+  _$virtual = true
+  index = 0
+  comp = null
+
+  constructor(owner, comp, index, name) {
+    super(null)
+    this.ownerShadowRoot = owner
+    this.comp = comp
+    this.index = index
+    this._$slotName = name
+    const values = Object.create(null)
+    for (const n of SLOT_VALUE_NAMES) values[n] = slotValueAt(index, n, slotEpoch)
+    this._$slotValues = values
+  }
+
+  // Element#slotNodes in dynamic-slot mode: the nodes whose containing slot is this one, in tree order; the containing
+  // slot of a node is the slot element of its subtree root below the component (ShadowRoot#getContainingSlot), and
+  // slot-inherit virtual nodes are listed together with their descendants (Element.forEachNodeInSlot)
+  get slotNodes() {
+    const out = []
+    const rec = (n) => {
+      out.push(n)
+      if (n._$inheritSlots) for (const c of n.childNodes) rec(c)
+    }
+    for (const c of this.comp.childNodes) if (c.slotElement === this) rec(c)
+    return out
+  }
+}
+
+// the shadow root of a stub component: slot mode and, in dynamic-slot mode, ShadowRoot#setDynamicSlotHandler /
+// replaceSlotValue / applySlotValueUpdates / applySlotUpdates of shadow_root.ts over the fixed slot instances
+class InnerRoot {
+  _$slotMode = SlotMode.Single
+  _$dynamicSlotsInserted = false
+  _$dynamicSlots = new Map()
+  _$requiredSlotValueNames = []
+  _$insertDynamicSlotHandler = undefined
+  _$removeDynamicSlotHandler = undefined
+  _$updateDynamicSlotHandler = undefined
+  slots = []
+
+  constructor(comp, def) {
+    if (def.slots) {
+      this._$slotMode = SlotMode.Dynamic
+      this.slots = def.slots.map((name, j) => new InnerSlot(this, comp, j, name))
+    }
+  }
+
+  getSlotMode() {
+    return this._$slotMode
+  }
+
+  setDynamicSlotHandler(requiredSlotValueNames, insertSlotHandler, removeSlotHandler, updateSlotHandler) {
+    if (this._$slotMode !== SlotMode.Dynamic) return
+    this._$requiredSlotValueNames = requiredSlotValueNames
+    this._$insertDynamicSlotHandler = insertSlotHandler
+    this._$removeDynamicSlotHandler = removeSlotHandler
+    this._$updateDynamicSlotHandler = updateSlotHandler
+    if (this._$dynamicSlotsInserted) {
+      for (const slotMeta of this._$dynamicSlots.values()) {
+        slotMeta.updatePathTree = slotMeta.updatePathTree || Object.create(null)
+      }
+    }
+  }
+
+  replaceSlotValue(slot, name, value) {
+    const slotValues = slot._$slotValues
+    if (!slotValues) return
+    if (slotValues[name] === value) return
+    slotValues[name] = value
+    if (this._$requiredSlotValueNames.indexOf(name) < 0) return
+    const slotMeta = this._$dynamicSlots.get(slot)
+    if (!slotMeta) return
+    if (!slotMeta.updatePathTree) slotMeta.updatePathTree = Object.create(null)
+    slotMeta.updatePathTree[name] = true
+  }
+
+  applySlotValueUpdates(slot) {
+    const slotMeta = this._$dynamicSlots.get(slot)
+    const tree = slotMeta && slotMeta.updatePathTree
+    if (!tree) return
+    slotMeta.updatePathTree = undefined
+    if (this._$updateDynamicSlotHandler) this._$updateDynamicSlotHandler(slot, slot._$slotValues, tree)
+  }
+
+  applySlotUpdates() {
+    if (!this._$dynamicSlotsInserted) {
+      this._$dynamicSlotsInserted = true
+      const slots = []
+      for (const slot of this.slots) {
+        this._$dynamicSlots.set(slot, { updatePathTree: undefined })
+        slots.push({ slot, name: slot._$slotName, slotValues: slot._$slotValues })
+      }
+      if (this._$insertDynamicSlotHandler) this._$insertDynamicSlotHandler(slots)
+    } else {
+      for (const [slot, slotMeta] of this._$dynamicSlots.entries()) {
+        const tree = slotMeta.updatePathTree
+        if (tree) {
+          slotMeta.updatePathTree = undefined
+          if (this._$updateDynamicSlotHandler) this._$updateDynamicSlotHandler(slot, slot._$slotValues, tree)
+        }
+      }
+    }
+  }
+
+  // what the component's own template would do when the values it hands to its slots change
+  moveToEpoch(k) {
+    for (const slot of this.slots) {
+      for (const n of SLOT_VALUE_NAMES) this.replaceSlotValue(slot, n, slotValueAt(slot.index, n, k))
+      this.applySlotValueUpdates(slot)
+    }
+  }
+}
+Object.setPrototypeOf(InnerRoot.prototype, TRAP)
+
+export class StubComponent extends Element {
+  def = DEFAULT_DEF
+  props = new Map() // applied property values
+  pending = [] // the change queue: [name, value]
+  propModelListeners = new Map()
+  externalClasses = new Map()
+  workletLifetimes = []
+  _sr = null
+
+  constructor(tagName, owner) {
+    super(owner, false)
+    this.is = tagName
+    this.def = COMPONENT_DEFS[tagName] || DEFAULT_DEF
+    this._sr = new InnerRoot(this, this.def)
+  }
+
+  getShadowRoot() {
+    return this._sr
+  }
+
+  hasPendingChanges() {
+    return this.pending.length > 0
+  }
+
+  hasExternalClass(name) {
+    return this.def.externalClasses.includes(name)
+  }
+
+  setExternalClass(name, v) {
+    this.externalClasses.set(name, v)
+  }
+
+  triggerWorkletChangeLifetime(name, value) {
+    this.workletLifetimes.push([name, value])
+  }
+}
+mark(StubComponent, COMPONENT_SYMBOL)
+
+const componentDataProxy = (comp) => ({
+  replaceProperty(propName, value) {
+    if (!comp.def.props.includes(propName)) return false
+    comp.pending.push([propName, value])
+    return true
+  },
+  applyDataUpdates() {
+    for (const [k, v] of comp.pending) comp.props.set(k, v)
+    comp.pending = []
+  },
+  setModelBindingListener(propName, listener) {
+    comp.propModelListeners.set(propName, listener)
+    probeModelListener(comp, propName, listener)
+  },
+})
+
+// Probe the real closure once to learn which data path it writes to:
+// it calls Component.getDataProxy(host).replaceDataOnPath(path, value); applyDataUpdates(false)
+const probeModelListener = (elem, propName, listener) => {
+  const host = elem.ownerShadowRoot.getHostNode()
+  host.modelWrites = []
+  try {
+    listener.call(elem, MODEL_PROBE)
+    const w = host.modelWrites
+    // a listener that writes nothing is how the wrapper clears a binding (path became null): same as none
+    if (w.length === 0) elem.modelPaths.delete(propName)
+    else elem.modelPaths.set(propName, w.length === 1 && w[0][1] === MODEL_PROBE ? w[0][0] : { unexpectedWrites: w.map((x) => x[0]) })
+  } catch (e) {
+    elem.modelPaths.set(propName, { probeError: errMsg(e) })
+  }
+  host.modelWrites = null
+}
 
 // The host "component" of the shadow root. It is NOT a component for isComponent().
 class Host {
@@ -432,6 +629,7 @@ Object.setPrototypeOf(Host.prototype, TRAP)
 
 export const Component = {
   getDataProxy(comp) {
+    if (comp instanceof StubComponent) return componentDataProxy(comp)
     if (!(comp instanceof Host)) throw new Error('stub backend: Component.getDataProxy on a non-host node')
     return {
       replaceDataOnPath(path, value) {
@@ -443,21 +641,22 @@ export const Component = {
   getMethod(_comp, _name) {
     return undefined
   },
-  hasProperty() {
-    return false
+  hasProperty(comp, name) {
+    return comp instanceof StubComponent && comp.def.props.includes(name)
   },
 }
-void COMPONENT_SYMBOL
 
 export class ShadowRoot extends VirtualNode {
   _serial = 0
   _host = new Host()
   _slotMode = SlotMode.Single
+  _components = false
 
-  constructor(slotMode = SlotMode.Single) {
+  constructor(slotMode = SlotMode.Single, components = false) {
     super('shadow', null)
     this.ownerShadowRoot = this
     this._slotMode = slotMode
+    this._components = components
   }
 
   getHostNode() {
@@ -480,9 +679,9 @@ export class ShadowRoot extends VirtualNode {
     return new VirtualNode(virtualName, this)
   }
 
-  // every tag resolves to a native node (ShadowRoot#createNativeNodeWithInit)
+  // `cmp-…` tags resolve to stub components, every other tag to a native node (ShadowRoot#createNativeNodeWithInit)
   createComponent(tagName, _usingKey, genericTargets, _placeholderCallback, initPropValues) {
-    const ret = new NativeNode(tagName, this)
+    const ret = this._components && /^cmp-/.test(tagName) ? new StubComponent(tagName, this) : new NativeNode(tagName, this)
     ret.generics = genericTargets || null
     if (initPropValues) initPropValues(ret)
     return ret
